@@ -126,7 +126,7 @@ def hlrfFORM( dim, g, dg, distObjs, corrMat, iter=1000, tol=1e-6,
             break
     
     # We do not expect convergence with iter == 1
-    if iter != 1 and np.linalg.norm( Us[ idx ] - Us[ idx - 1 ] ) >= tol:
+    if iter != 1 and not np.linalg.norm( Us[ idx ] - Us[ idx - 1 ] ) < tol:
         raise ValueError( "hlrfFORM does not converge with current parameters.")
 
     beta = betas[ idx ]
@@ -221,6 +221,8 @@ def coptFORM( dim, g, distObjs, corrMat, quadDeg=99, quadRange=8 ):
                "fun": lambda U: g( natafTrans.getX( U )[ 0 ] ) } )
     
     rst = optimize.minimize( f, u, constraints=cons )
+    if not rst.success:
+        raise ValueError( "coptFORM does not converge with current parameters." )
     beta = rst.fun
     # The reliability index is negative when the origin of the standard normal 
     # space ( the median point ) is already in the failure domain
